@@ -32,10 +32,21 @@ Semantics (level-triggered, Trio-style; each rule is what the statement/docstrin
 * An interrupt leaving a task-group block (or hitting the parent while it waits for its children at the end of the
   block) cancels the unfinished children (foreign cancel for them), waits for them, then continues outwards.
 
-The interpreter has no notion of event-loop turns.  Whenever the outcome would depend on them it says so instead of
-guessing: `tie` (two timers due at the same virtual instant) and `racy` (a cross-task cancellation meeting a task that
-is passing bare checkpoints, or that has not started, at the same instant).  Exact comparison is only meaningful when
-both are False.
+The interpreter has no notion of event-loop turns.  A task that reaches a checkpoint is parked first and everything else
+that is runnable in the same instant runs before its interrupt (if it is due) is delivered, as on any event loop; apart
+from that, whenever the outcome would depend on the order of loop turns inside one virtual instant the interpreter says
+so instead of guessing:
+
+* `tie`  — two timers (sleep wake-up, scope deadline, external cancel) due at the same virtual instant, or the
+  external cancel due in the very instant the program starts;
+* `racy` — a cross-task cancellation (a child cancelling/rescheduling a scope hosted by another task, a task-group
+  abort) reaching a task that has not started yet, whose wait has just completed, or that is passing zero-time
+  checkpoints in that instant; a child finishing after a zero-time checkpoint in the instant its group is aborted; a
+  parent leaving a group, with a cancellation pending, in the instant its last child finished.
+
+Exact comparison is only meaningful when both are False.  The interpreter also reports the *shapes* of the two known
+defects of the implementation (`d5_shape`, `d6_shape`/`d6_scopes`, see ModelResult), which the check uses to steer
+generation away from them, and the non-triviality facts.
 """
 
 from __future__ import annotations
